@@ -494,18 +494,19 @@ class RefModel:
 
     # constraint instances -------------------------------------------------------------------
     def _slacks(self, c, env):
-        sc = c.get("scale") or 1.0
+        sc_all = c.get("scale") or 1.0
+        scl = sc_all if isinstance(sc_all, list) else [sc_all] * len(c["lhs"])
         out = []
         form = c["form"]
         if form == "box":
-            for e, lb, ub in zip(c["lhs"], c["lb"], c["ub"]):
+            for e, lb, ub, sc in zip(c["lhs"], c["lb"], c["ub"], scl):
                 v, l, u = E.ev(e, env), E.ev(lb, env), E.ev(ub, env)
                 if np.isfinite(l):
                     out.append(("ge", (v - l) / sc))
                 if np.isfinite(u):
                     out.append(("ge", (u - v) / sc))
             return out
-        for a, b in zip(c["lhs"], c["rhs"]):
+        for a, b, sc in zip(c["lhs"], c["rhs"], scl):
             va, vb = E.ev(a, env), E.ev(b, env)
             if form == "le":
                 out.append(("ge", (vb - va) / sc))
